@@ -70,6 +70,11 @@ def three_val(test, val, seen=None, defs=None, depth=0):
     vals = val.get("@values") if isinstance(val, dict) else None
     if vals and isinstance(test, ast.Compare) and len(test.ops) == 1:
         lt, rt = norm(test.left), norm(test.comparators[0])
+        # a local that merely names the valued expression (`converger = SCF.converger[0]`)
+        if lt not in vals and isinstance(test.left, ast.Name) and defs and len(defs.get(test.left.id, [])) == 1 and norm(defs[test.left.id][0]) in vals:
+            lt = norm(defs[test.left.id][0])
+        if rt not in vals and isinstance(test.comparators[0], ast.Name) and defs and len(defs.get(test.comparators[0].id, [])) == 1 and norm(defs[test.comparators[0].id][0]) in vals:
+            rt = norm(defs[test.comparators[0].id][0])
         try:
             if lt in vals:
                 a_, b_ = vals[lt], ast.literal_eval(test.comparators[0])
@@ -146,11 +151,10 @@ GUARDS = [
     ("uhf-sp2-factory", SCF, "make_Pnew_factory", {"openshell": True, "sp2[0]": True}, (),
      "unrestricted reference with SP2"),
     ("uhf-ksa-scf-forward", SCF, "SCF.forward",
-     {"unrestricted": True, "SCF.converger[0] == 0": False, "SCF.converger[0] == 3": True}, ("scf_forward3",),
+     {"unrestricted": True, "@values": {"SCF.converger[0]": 3}}, ("scf_forward3",),
      "unrestricted reference with the KSA solver (scf_backward 0/1 path)"),
     ("uhf-pulay-scf-forward", SCF, "SCF.forward",
-     {"unrestricted": True, "SCF.converger[0] == 0": False, "SCF.converger[0] == 3": False, "SCF.converger[0] == 1": False,
-      "SCF.converger[0] == 2": True}, ("scf_forward2",),
+     {"unrestricted": True, "@values": {"SCF.converger[0]": 2}}, ("scf_forward2",),
      "unrestricted reference with Pulay DIIS (scf_backward 0/1 path)"),
     ("uhf-pm6-scf-loop", SCF, "scf_loop", {"unrestricted": True, "molecule.method == 'PM6'": True}, ("scfapply", "scf_forward0", "scf_forward1", "scf_forward2"),
      "unrestricted reference with PM6 (integral stage)"),
@@ -172,17 +176,17 @@ GUARDS = [
      {"excited_mask.any()": True, "self.excited_states": False, "self.xlesmd": False}, ("rcis_batch", "rpa", "rcis_any_batch"),
      "an excited active state without excited-state settings"),
     ("rpa-heterogeneous-batch", BASICS, "Energy.forward",
-     {"self.excited_states": True, "all_same_mols": False, "method == 'cis'": False}, ("rpa", "rcis_batch"),
+     {"self.excited_states": True, "all_same_mols": False, "@values": {"method": "rpa"}}, ("rpa", "rcis_batch"),
      "RPA (or anything but CIS) on a heterogeneous batch"),
     ("unknown-excited-method", BASICS, "Energy.forward",
-     {"self.excited_states": True, "all_same_mols": True, "method == 'cis'": False, "method == 'tda'": False, "method == 'rpa'": False},
+     {"self.excited_states": True, "all_same_mols": True, "@values": {"method": "eom-cc"}},
      ("rpa", "rcis_batch", "rcis_any_batch"), "an excited-state method that is neither CIS/TDA nor RPA"),
     ("all-forces-without-analytical-gradient", BASICS, "Energy.forward",
      {"self.excited_states": True, "self.seqm_parameters.get('do_all_forces', False)": True, "do_analytical_gradient[0]": False}, (),
      "all-state forces without analytical gradients"),
     ("all-forces-heterogeneous-batch", BASICS, "Energy.forward",
      {"self.excited_states": True, "self.seqm_parameters.get('do_all_forces', False)": True, "do_analytical_gradient[0]": True,
-      "all_same_mols": False, "method == 'cis'": True}, (),
+      "all_same_mols": False, "@values": {"method": "cis"}}, (),
      "all-state forces on a heterogeneous batch"),
     ("unknown-com-mode", MD, "Molecular_Dynamics_Basic.initialize", {"self.do_remove_com": True, "mode in ('linear', 'angular')": False}, ("_zero_com",),
      "an unknown centre-of-mass removal mode"),
@@ -347,7 +351,7 @@ def run(ctx):
         if g is None:
             g = cfgs[(rel, qual)] = build_cfg(func)
         seen, used = reach_under(g, val)
-        missing = sorted(set(val) - used)
+        missing = sorted(set(val) - used - {"@values"})
         # atoms that never occur in a test of the function: the guard vanished or was respelled
         texts = set()
         fdefs_ = {}
@@ -364,7 +368,7 @@ def run(ctx):
                     for x in ast.walk(e_):
                         if isinstance(x, ast.expr):
                             texts.add(leaf_key(x)[0])
-        absent = [k for k in val if k not in texts]
+        absent = [k for k in val if k not in texts and k != "@values"]
         exit_reached = g.exit_return in seen
         prod_reached = []
         for n in seen:
